@@ -156,31 +156,111 @@ def gen_second_service(r, spec):
     return {"methods": ms}
 
 
+# collections under which operations live: (pattern of the parent, a format producing a parent name)
+COLLS = [("shelves/*", "shelves/s{0}"), ("archives/*", "archives/a{0}"), ("projects/*/locations/*", "projects/p{0}/locations/l{0}"),
+         ("organizations/*", "organizations/o{0}")]
+OPS_SEL = "google.longrunning.Operations."
+
+
 def gen_yaml(r, pkg):
-    """service config: http rules for google.longrunning.Operations (REST operations client), other rules, optional mixin"""
+    """service config: http rules for google.longrunning.Operations (the REST operations client's table) with 0..3
+    ADDITIONAL BINDINGS each — operations living under several kinds of parent, as in real service configs —, other rules,
+    optional mixin.  The bindings of GetOperation decide which operation names the client can poll (`NameSource`)."""
     ver = pkg.rsplit(".", 1)[1]
-    get = r.pick([
-        [["get", "/v9/{name=shelves/*/operations/*}", ""]],
-        [["get", f"/{ver}/{{name=**/operations/*}}", ""]],
-        [["get", "/v9/{name=operations/*}", ""], ["get", "/v8/{name=shelves/*/operations/*}", ""]],      # only the additional binding fits
-        [["get", "/v7/{name=shelves/*/operations/*}:poll", ""]],
-        None])
+    pv = lambda: r.pick([ver, ver, "v9", "v8"])
+
+    def colls(n=None):
+        return r.sample(range(len(COLLS)), n if n is not None else r.pick([1, 2, 2, 3, 3, 4]))
+    shape = r.pick(["collections"] * 6 + ["catch-all", "only-additional-fits", "suffix", "default", "default"])
+    cs = None
+    if shape == "collections":          # primary + 0..3 additional bindings, one collection each
+        cs = colls()
+        get = [["get", f"/{pv()}/{{name={COLLS[c][0]}/operations/*}}" + (":poll" if r.maybe(0.1) else ""), ""] for c in cs]
+    elif shape == "catch-all":
+        get = [["get", f"/{ver}/{{name=**/operations/*}}", ""]]
+        if r.maybe(0.5):                # a narrower binding first, the catch-all as the additional one
+            get.insert(0, ["get", f"/v9/{{name={COLLS[r.randint(0, 3)][0]}/operations/*}}", ""])
+    elif shape == "only-additional-fits":
+        get = [["get", "/v9/{name=operations/*}", ""], ["get", "/v8/{name=shelves/*/operations/*}", ""]]
+    elif shape == "suffix":
+        get = [["get", "/v7/{name=shelves/*/operations/*}:poll", ""]]
+    else:
+        get = None
+
+    def covering(verb, suffix, body):
+        """bindings for Cancel/Delete/Wait: every name GetOperation can poll is accepted by one of them"""
+        if cs is None or r.maybe(0.25):
+            out = [[verb, f"/{ver}/{{name=**}}{suffix}", body]]
+            if r.maybe(0.4):
+                out.insert(0, [verb, f"/v9/{{name={COLLS[r.randint(0, 3)][0]}/operations/*}}{suffix}", body])
+            return out
+        order = list(cs) + [c for c in range(len(COLLS)) if c not in cs and r.maybe(0.3)]
+        r.shuffle(order)
+        return [[verb, f"/{pv()}/{{name={COLLS[c][0]}/operations/*}}{suffix}", body] for c in order]
     rules = []
     if r.maybe(0.3):
         rules.append({"selector": "google.cloud.location.Locations.GetLocation", "bindings": [["get", "/v1/{name=projects/*/locations/*}", ""]]})
     if get and r.maybe(0.25):   # an earlier rule for the same selector: the later one wins
-        rules.append({"selector": "google.longrunning.Operations.GetOperation", "bindings": [["get", "/v0/{name=never/*}", ""]]})
+        rules.append({"selector": OPS_SEL + "GetOperation", "bindings": [["get", "/v0/{name=never/*}", ""], ["get", "/v0/{name=shelves/*/operations/*}", ""]][:r.randint(1, 2)]})
     if r.maybe(0.5):
-        rules.append({"selector": "google.longrunning.Operations.CancelOperation",
-                      "bindings": [["post", f"/{ver}/{{name=**/operations/*}}:cancel", "*"]]})
+        rules.append({"selector": OPS_SEL + "CancelOperation", "bindings": covering("post", ":cancel", "*")})
         # (a CancelOperation rule WITHOUT `body` — common in real service configs — makes api-core's REST operations transport raise
         #  KeyError: 'body' in future.cancel(); that is api-core's `_cancel_operation`, not the generator: not generated here)
+    if r.maybe(0.3):
+        rules.append({"selector": OPS_SEL + "WaitOperation", "bindings": covering("post", ":wait", "*")})
     if get:
-        rules.append({"selector": "google.longrunning.Operations.GetOperation", "bindings": get})
-    if r.maybe(0.2):
-        rules.append({"selector": "google.longrunning.Operations.DeleteOperation", "bindings": [["delete", f"/{ver}/{{name=**/operations/*}}", ""]]})
-    r_ = list(rules)
-    return {"rules": r_, "mixin": r.maybe(0.4)}
+        rules.append({"selector": OPS_SEL + "GetOperation", "bindings": get})
+    if r.maybe(0.3):
+        rules.append({"selector": OPS_SEL + "DeleteOperation", "bindings": covering("delete", "", "")})
+    if r.maybe(0.3):
+        rules.append({"selector": OPS_SEL + "ListOperations",
+                      "bindings": [["get", f"/{pv()}/{{name={COLLS[c][0]}}}/operations", ""] for c in colls(r.randint(1, 4))]})
+    if r.maybe(0.3):            # order of the rules in the file (the decoy stays the EARLIER of the two GetOperation rules)
+        r.shuffle(rules)
+        gi = [i for i, x in enumerate(rules) if x["selector"] == OPS_SEL + "GetOperation"]
+        if len(gi) == 2 and not rules[gi[0]]["bindings"][0][1].startswith("/v0/"):
+            rules[gi[0]], rules[gi[1]] = rules[gi[1]], rules[gi[0]]
+    return {"rules": list(rules), "mixin": r.maybe(0.4)}
+
+
+def name_pattern(uri):
+    """the pattern of the `{name=...}` variable of a uri template (`*` when the variable is bare), or None"""
+    i = uri.find("{name")
+    if i < 0:
+        return None
+    var = uri[i + 1:uri.index("}", i)]
+    return var.partition("=")[2] or "*"
+
+
+class NameSource:
+    """operation names the server hands out.  They are the SERVER's choice; the quantifier only makes sense for names the
+    service config lets the client poll, so a name is an instance of the pattern of ONE binding of the GetOperation rule in
+    force — the primary, a middle and the last binding in turn (round robin, primary first) — or, without such a rule, of
+    api-core's default `**/operations/*` under one of the collections."""
+
+    def __init__(self, ctx, spec, ids):
+        self.ctx, self.ids, self.k = ctx, ids, 0
+        last = None
+        for rule in yaml_rules(spec):
+            if rule["selector"] == OPS_SEL + "GetOperation":
+                last = rule
+        self.patterns = [name_pattern(b[1]) for b in last["bindings"]] if last else None
+
+    def next(self, tag):
+        i = next(self.ids)
+        if self.patterns is None:
+            self.k += 1
+            self.ctx.count("poll_binding", "default-rule")
+            return f"{COLLS[self.k % len(COLLS)][1].format(i)}/operations/{tag}{next(self.ids)}"
+        n = len(self.patterns)
+        idx = self.k % n
+        self.k += 1
+        self.ctx.count("poll_binding", ("only" if n == 1 else "primary" if idx == 0 else "last" if idx == n - 1 else "middle") + f" of {n}")
+        segs = []
+        for seg in self.patterns[idx].split("/"):
+            segs.append(f"shelves/s{i}" if seg == "**" else (f"x{i}" if seg == "*" else seg))
+        segs[-1] = f"{tag}{next(self.ids)}" if self.patterns[idx].split("/")[-1] in ("*", "**") else segs[-1]
+        return "/".join(segs)
 
 
 def gen_spec_subpkg(r: apigen.Rng, idx: int, nlro=None):
@@ -866,6 +946,7 @@ def _run_spec(ctx, r, spec, label, files, req, transports):
     root = genrun.materialise(res)
     try:
         ids = iter(range(1, 10 ** 6))
+        names = NameSource(ctx, spec, ids)
         local_types = sorted({f"{fpkg(spec, role)}.{x}" for role in ROLES for x in spec["files"][role]["msgs"]})
         plans = []
         for m in spec["methods"]:
@@ -874,7 +955,7 @@ def _run_spec(ctx, r, spec, label, files, req, transports):
                 rt, mt = m["response"]["target"], m["metadata"]["target"]
                 for h in range(ctx.n(2, 4)):
                     ops = gen_history(r, ctx, rt, mt, [t for t in local_types if t != rt], ids)
-                    plans.append((m, wm, ops, f"shelves/s{next(ids)}/operations/op{next(ids)}"))
+                    plans.append((m, wm, ops, names.next("op")))
             elif m["kind"] == "raw":
                 plans.append((m, wm, [{"done": r.maybe(), "meta": None, "out": None}], f"shelves/s1/operations/raw{next(ids)}"))
         reqd = {"name": "x"}
@@ -901,7 +982,7 @@ def _run_spec(ctx, r, spec, label, files, req, transports):
                 sessions.append({"op": "grpc_session", "client": loc["async_client" if asy else "client"], "transport": loc[tr],
                                  "async": asy, "calls": calls, "trap_sleep": True})
         nbasic = len(sessions)
-        progs, extra = plan_programs(ctx, r, spec, api, svc, svc2, loc, codec, local_types, ids, transports)
+        progs, extra = plan_programs(ctx, r, spec, api, svc, svc2, loc, codec, local_types, ids, transports, names)
         sessions = sessions + extra
         out = libhost.run(root, sessions, timeout=900)
         for attempt in range(8):     # a shared harness file being edited by another builder at this moment: infrastructure, retry
@@ -929,7 +1010,7 @@ def _run_spec(ctx, r, spec, label, files, req, transports):
         genrun.cleanup(root)
 
 
-def plan_programs(ctx, r, spec, api, svc, svc2, loc, codec, local_types, ids, transports):
+def plan_programs(ctx, r, spec, api, svc, svc2, loc, codec, local_types, ids, transports, names):
     """program sessions (libhost_c08): futures used as objects, two futures interleaved on one client, the same request
     dict literal for both; plus the REST operations client's http table and the presence of `operations_client`"""
     import gapic.utils as gu
@@ -946,7 +1027,7 @@ def plan_programs(ctx, r, spec, api, svc, svc2, loc, codec, local_types, ids, tr
             for _ in range(ctx.n(1, 2)):
                 rt, mt = m["response"]["target"], m["metadata"]["target"]
                 ops = gen_history(r, ctx, rt, mt, [], ids, allow_mismatch=False)
-                calls.append({"m": m, "wm": sv.methods[m["name"]], "ops": ops, "opname": f"shelves/s{next(ids)}/operations/p{next(ids)}", "cmds": gen_program(r)})
+                calls.append({"m": m, "wm": sv.methods[m["name"]], "ops": ops, "opname": names.next("p"), "cmds": gen_program(r)})
         r.shuffle(calls)
         groups, k = [], 0
         while k < len(calls):
@@ -1093,6 +1174,10 @@ def check_programs(ctx, spec, codec, svc, sv_res, mfiles, svc_idx, progs, outs, 
                 if cmd == "metadata" and isinstance(ob[1], list) and ob[1][0] != "ok":
                     ctx.fail("metadata-type", f"{kind} {label}.{m['name']}: metadata gave {ob[1]}, annotated metadata type {mt}", pl)
             need = expected_polls(ops)
+            raised = [ob for cmd, ob in zip(cmds, got) if cmd in ("result", "exception", "done", "running") and isinstance(ob[1], list) and ob[1][:1] == ["raised"]]
+            if need > 0 and polls == 0 and raised:
+                ctx.fail("poll-not-sent", f"{kind} {label}.{m['name']}: the future could not poll operation {opname}: {raised[0]} after {cmds} and no GetOperation "
+                         f"request reached the server (Operations rules of the service config: {[x for x in yaml_rules(spec) if x['selector'].startswith(OPS_SEL)]})", pl)
             if polls > need or (polls != need and any(x in ("result", "exception") for x in cmds)):
                 ctx.fail("poll-count", f"{kind} {label}.{m['name']}: {polls} GetOperation calls for operation {opname} after {cmds}, history needs {need}", pl)
             if len(res_.get("cancel_names", [])) > cmds.count("cancel"):
@@ -1184,6 +1269,11 @@ def check_call(ctx, spec, codec, tr, m, ops, opname, res_, mo, stub_paths):
         return
     got_res, got_md = decode_obs(codec, ok.get("result")), decode_obs(codec, ok.get("metadata"))
     got_before = decode_obs(codec, ok.get("metadata_before")) if "metadata_before" in ok else "n/a"
+    if expected_polls(ops) > 0 and not names and got_res and got_res[0] == "raised" and \
+            not (isinstance(getattr(core_exceptions, got_res[1], None), type) and issubclass(getattr(core_exceptions, got_res[1]), core_exceptions.GoogleAPICallError)):
+        # statement: the future POLLS google.longrunning.Operations — here no poll was ever sent
+        ctx.fail("poll-not-sent", f"{tr} {m['name']}: the future could not poll operation {opname}: result() raised {got_res[1]}: {got_res[2][:300]} and no "
+                 f"GetOperation request reached the server (Operations rules of the service config: {[x for x in yaml_rules(spec) if x['selector'].startswith(OPS_SEL)]})", payload)
     if len(names) != expected_polls(ops):
         ctx.fail("poll-count", f"{tr} {m['name']}: {len(names)} GetOperation calls, history needs {expected_polls(ops)}", payload)
     # REST: the URL prefix comes from the Operations http rule in force (api-core default or service config); the
@@ -1363,7 +1453,9 @@ def run(ctx):
                 "same file stem in two packages; all of them on gRPC, asyncio gRPC and REST with the same histories, programs and service configs; LRO methods share response/metadata types in every combination (same response, same metadata, "
                 "both, crossed, one's response = another's metadata, chains); rpcs named Operation/OperationAsync and files operation(_async).proto (module alias); "
                 "a second service in the un-imported file (0..2 LROs, sometimes none: no operations client); service-config http rules for Operations "
-                "(additional bindings, duplicate selectors, suffixes, other services' rules, mixin) x histories (RPC reply, not-done^k, done(response|error|neither), extra replies) x "
+                "(Get/Cancel/Delete/List/WaitOperation with 0..3 additional bindings over the collections shelves | archives | projects/locations | organizations, "
+                "catch-all and suffix forms, duplicate selectors, rule order, other services' rules, mixin); operation NAMES instantiate the primary, a middle and the last "
+                "GetOperation binding in turn (or api-core's default pattern) x histories (RPC reply, not-done^k, done(response|error|neither), extra replies) x "
                 "{gRPC, gRPC asyncio, REST}; futures used as OBJECTS: programs over metadata/done()/running()/cancel()/result()/exception(), two futures "
                 "interleaved on one client with the same request dict literal, against a server that answers GetOperation by operation name; "
                 "plus rejection cases (also in the second service, also annotation present-but-empty) and excluded points; distinct by API spec, by (transport, response case, "
@@ -1405,7 +1497,8 @@ CLAIM = dict(
           "k+1 polls, errors raise, nothing after the done reply is fetched; services load method by method (entry i is lroInfo of method i alone; the first "
           "incomplete annotation aborts the build); the emitted constructor call uses the name the import binds (alias gac_operation on collision); "
           "observing a future (metadata/done/cancel/exception, any program) never changes its result nor the total number of polls, and a completed "
-          "future sends nothing; the REST operations client's http table and poll URL (service-config rule over the default). Tie: T2 real Address.resolve, _maybe_get_lro, Method.lro, "
+          "future sends nothing; the REST operations client's http table and poll URL (service-config rule over the default; EVERY declared binding of the last "
+          "rule of a selector is in the table, and a name fitting any declared GetOperation binding has a poll URL). Tie: T2 real Address.resolve, _maybe_get_lro, Method.lro, "
           "_client_output vs the model; T3 generation outcome and the emitted sync gRPC, asyncio gRPC and REST clients against loopback servers "
           "with scripted GetOperation histories and with programs over the future object (libhost_c08) vs the model; Address.module_alias, Service.has_lro, "
           "the REST operations http table vs the model; Service.client_package_version (default REST poll prefix) vs the model's clientPackageVersion of the "
